@@ -689,3 +689,31 @@ CONTROLS['C13'] += [
       F('core', 'Dataset.shuffle', lambda n: isinstance(n, ast.Assert) and 'reshuffle' in A.src(n.test), M.delete_keep_pass),
       're-drawing-stage-only-when-reshuffle-is-True', tier='quick'),
 ]
+CONTROLS['C03'] += [
+    C('items() of a slice takes the key from its own key tuple (P)',
+      expr_replace('core', 'SliceDataset.__iter__', 'self.input_dataset.keys()', 'self.keys()'), 'pair-keys-of-the-dataset', tier='quick'),
+]
+CONTROLS['C18'] += [
+    C('items() of a sorted dataset pairs keys by position in the sorted key tuple (P)',
+      expr_replace('core', 'SliceDataset.__iter__', 'self.input_dataset.keys()', 'self.keys()'), 'pair-keys-of-the-dataset', tier='quick'),
+]
+CONTROLS['C14'] += [
+    C('an empty exception selection is replaced by the default (ST)',
+      F('core', 'CatchExceptionDataset.__init__', lambda n: isinstance(n, ast.Assign) and A.is_self_attr(n.targets[0], 'exceptions'),
+        lambda n: M.parse_stmt('self.exceptions = exceptions or FilterException')), 'ST', tier='quick'),
+]
+CONTROLS['C12'] += [
+    C('sampling falls back to replacement for a full-size sample (TL)',
+      stmt_insert_before('core', 'Dataset.random_choice', 'i = rng_state.choice(len(self), size=size, replace=replace)',
+                         'if size is not None and size >= len(self):\n    replace = True'), 'parameters-reach-choice', tier='quick'),
+]
+CONTROLS['C13'] += [
+    C('copy of a slice resolves the caller\'s index object again (AL)',
+      F('core', 'SliceDataset.copy', lambda n: isinstance(n, ast.Return),
+        lambda n: M.parse_stmt('return self.__class__(self._slice, self.input_dataset.copy(freeze=freeze))')), 'AL', tier='quick'),
+]
+CONTROLS['C01'] += [
+    C('interleaving position multiplies by a reciprocal (IO)',
+      expr_replace('core', 'IntersperseDataset.__init__', '(example_index + 1) / ds_len', '(example_index + 1) * (1 / ds_len)'),
+      'position-is-one-exact-quotient', tier='quick'),
+]
